@@ -360,6 +360,9 @@ Section Calls.
   Context {G M : Type}.
   Variable cvA : G -> G.
   Variable cvR : G -> option M -> G.
+  (* the graph has no nodes (the NetworkX adapters' _restore walks opt_graph.nodes and reads node.uid:
+     on a NetworkX digraph that raises as soon as there is a node - and does nothing on an empty one) *)
+  Variable g_empty : G -> bool.
 
   Inductive val :=
   | VGraph (c : gcl) (g : G)
@@ -404,8 +407,12 @@ Section Calls.
   (* graph classes self._restore / self._adapt can process without an AttributeError: the
      NetworkX adapters read adaptee.nodes.items() resp. opt_graph.nodes / node.uid, the direct
      adapter reads .nodes after rewriting __class__ *)
-  Definition can_restore (k : akind) (c : gcl) : bool :=
-    match k with AIdentity => true | _ => optlike k c end.
+  Definition can_restore (k : akind) (c : gcl) (g : G) : bool :=
+    match k with
+    | AIdentity => true
+    | ANx | ADumb => optlike k c || g_empty g      (* an EMPTY foreign digraph comes back as an empty digraph *)
+    | _ => optlike k c
+    end.
   Definition can_adapt (k : akind) (c : gcl) : bool :=
     match k with
     | AIdentity => true
@@ -428,7 +435,7 @@ Section Calls.
     match k with
     | AIdentity => Ok v
     | _ => match v with
-           | VGraph c g => if can_restore k c then Ok (VGraph (dom_tag k) (cvR g m)) else Raise
+           | VGraph c g => if can_restore k c g then Ok (VGraph (dom_tag k) (cvR g m)) else Raise
            | _ => Raise
            end
     end.
@@ -528,11 +535,11 @@ Section Calls.
      one led by a graph holds graphs only, and every graph that will be converted is of a
      class the adapter can read *)
   Definition elem_restorable (k : akind) (v : val) : bool :=
-    match v with VGraph c _ => can_restore k c | VInd c _ _ => can_restore k c | _ => false end.
+    match v with VGraph c g => can_restore k c g | VInd c g _ => can_restore k c g | _ => false end.
 
   Definition restorable (k : akind) (v : val) : bool :=
     match v with
-    | VInd c _ _ => can_restore k c
+    | VInd c g _ => can_restore k c g
     | VSeq (h :: t) | VTuple (h :: t) | VUserSeq _ (h :: t) =>
         if is_ind h then forallb (fun x => is_ind x && elem_restorable k x) (h :: t)
         else if is_opt_inst k h then forallb (fun x => is_graph x && elem_restorable k x) (h :: t)
@@ -648,11 +655,11 @@ Definition adapt_func (fl : flags) (c : callable) : adapted :=
   if is_native fl c then Same c else Wrapped c.
 
 (* calling the outcome, given the meaning of the callables *)
-Definition call_adapted {G M} (cvA : G -> G) (cvR : G -> option M -> G) (k : akind)
+Definition call_adapted {G M} (cvA : G -> G) (cvR : G -> option M -> G) (g_empty : G -> bool) (k : akind)
            (den : callable -> @pyfun G M) (a : adapted) : @pyfun G M :=
   match a with
   | Same c => den c
-  | Wrapped c => adapt_wrap cvA cvR k (den c)
+  | Wrapped c => adapt_wrap cvA cvR g_empty k (den c)
   end.
 
 (* ------------------------------------------------------------------------------------ *)
@@ -898,6 +905,8 @@ Definition agree_identity (g a r : cgraph) : bool :=
 Definition tval := @val nat nat.
 Definition tid (g : nat) : nat := g.
 Definition tidR (g : nat) (_ : option nat) : nat := g.
+(* the harness gives the empty graph the token 99 *)
+Definition tempty (g : nat) : bool := Nat.eqb g 99.
 
 Record call_obs := mkCall {
   c_kind : akind;
@@ -917,8 +926,8 @@ Definition inner_eqb (a b : res (list tval * list (string * tval))) : bool :=
 
 (* the literal model: run the wrapper on a function that returns c_raw and compare *)
 Definition agree_call (c : call_obs) : bool :=
-  let fa := if c_adapting c then @restore nat nat tidR (c_kind c) else @adapt nat nat tid (c_kind c) in
-  let fr := if c_adapting c then @adapt nat nat tid (c_kind c) else @restore nat nat tidR (c_kind c) in
+  let fa := if c_adapting c then @restore nat nat tidR tempty (c_kind c) else @adapt nat nat tid (c_kind c) in
+  let fr := if c_adapting c then @adapt nat nat tid (c_kind c) else @restore nat nat tidR tempty (c_kind c) in
   let inner := bind (map_kw fa (c_kwargs c)) (fun kw' => bind (map_res fa (c_args c)) (fun a' => Ok (a', kw'))) in
   inner_eqb inner (c_inner c) &&
   res_eqb t_val_eqb (transform fa fr (fun _ _ => Ok (c_raw c)) (c_args c) (c_kwargs c)) (c_out c).
@@ -930,8 +939,8 @@ Definition holds_call (c : call_obs) : bool :=
   let k := c_kind c in
   let sa := if c_adapting c then @restore_total nat nat tidR k else @adapt_total nat nat tid k in
   let sr := if c_adapting c then @adapt_total nat nat tid k else @restore_total nat nat tidR k in
-  let pa := if c_adapting c then @restorable nat nat k else @adaptable nat nat k in
-  let pr := if c_adapting c then @adaptable nat nat k else @restorable nat nat k in
+  let pa := if c_adapting c then @restorable nat nat tempty k else @adaptable nat nat k in
+  let pr := if c_adapting c then @adaptable nat nat k else @restorable nat nat tempty k in
   if forallb pa (c_args c) && forallb (fun kv => pa (snd kv)) (c_kwargs c) && result_ok pr (c_raw c)
   then
     inner_eqb (Ok (map sa (c_args c), map (fun kv => (fst kv, sa (snd kv))) (c_kwargs c))) (c_inner c) &&
@@ -982,7 +991,7 @@ Definition holds_registry (ops : list reg_op) (c : callable) (obs_native obs_sam
    of class x (BaseNetworkxAdapter; partials / methods only prepend arguments; a _transform closure
    converts the argument and calls what it wraps) *)
 Definition through (adapting : bool) (x : gcl) : gcl :=
-  match (if adapting then @restore nat nat tidR ANx (VGraph x 0) else @adapt nat nat tid ANx (VGraph x 0)) with
+  match (if adapting then @restore nat nat tidR tempty ANx (VGraph x 0) else @adapt nat nat tid ANx (VGraph x 0)) with
   | Ok (VGraph c _) => c
   | _ => x
   end.
